@@ -186,6 +186,9 @@ def classify_c36(inp):
                 classes.add("meta:udf-on-empty-partition:dtype")
             elif any(st[0] in ("where", "mask") and st[1] == col for st in inp["steps"]) and {m, o} <= {"int64", "float64"}:
                 classes.add("meta:where-mask:value-dependent-dtype")
+            elif col in ("di", "df_") and (m, o) == ("int64", "float64") and "or_filter_binop" in names:
+                # x - x[pred]: the rows that the filter drops become NaN -> float64, meta (no rows) says int64
+                classes.add("meta:sub-of-filtered-frame:int64-vs-float64")
             else:
                 return None
         return sorted(classes)[0]
@@ -231,6 +234,12 @@ def case_api(ctx, inp):
         if i["kind"] in ("max", "min") and any(n == 0 for n in i["lens"]) and len(i["lens"]) > 1:
             sigs.append((lambda pr, meta, obj: [p[0] for p in pr] == ["dtypes"] and "int" in str(pr[0][1]) and "float" in str(pr[0][2]),
                          "meta:int-minmax:empty-partition:float64"))
+        if i["kind"] in ("max", "min") and any(n == 0 for n in i["lens"]) and len(i["lens"]) > 1 and not i["params"].get("skipna", True):
+            sigs.append((lambda pr, meta, obj: [p[0] for p in pr] == ["dtypes"] and pr[0][1] == ["object"] and pr[0][2] == ["float64"],
+                         "meta:minmax:skipna=False:empty-partition:object-vs-float64"))
+        if i["params"].get("axis") == 1 and not i.get("column") and i["kind"] in ("sum", "prod", "min", "max", "mean", "var", "std", "sem"):
+            sigs.append((lambda pr, meta, obj: [p[0] for p in pr] == ["dtypes"] and len(obj) == 0 and pr[0][1] == ["object"] and pr[0][2] == ["float64"],
+                         "meta:axis1-mixed-bool:empty-partition:float64-vs-object"))
         if i["kind"] == "var" and i["params"].get("axis") == 1 and not i.get("column"):
             sigs.append((lambda pr, meta, obj: [p[0] for p in pr] == ["dtypes"] and pr[0][1] == ["float64"] and pr[0][2] == ["object"],
                          "meta:var-axis1:mixed-bool:object-vs-float64"))
